@@ -350,6 +350,24 @@ def m_slice_index(it, st, callee, args, dest_tid, site):
         st.assume(ok)
     return [(st, Slice(sl.obj, sl.path, X.binop('add', sl.start, a), X.binop('sub', sl.len, a, wrap=False), sl.mut))]
 
+@model('<std::vec::Vec<T, A> as std::ops::Index<I>>::index', '<std::vec::Vec<T, A> as std::ops::IndexMut<I>>::index_mut',
+       doc='safe element indexing v[i] on a Vec: panics (never UB) when i >= len; result is a reference to element i')
+def m_vec_index(it, st, callee, args, dest_tid, site):
+    v = vec_of(it, st, args[0])
+    sl = Slice(v.f['buf'], (), usz(0), st.heap[v.f['buf']].len, 'mut' in callee.get('def', ''))
+    idx = args[1]
+    if not (isinstance(idx, E) and idx.ty == X.USIZE):
+        raise Unsupported(f"Vec index by {idx!r}")
+    ok = X.binop('lt', idx, sl.len)
+    dec = it.decide(st, ok)
+    if dec is not True:
+        it.rec.panic(kind='slice-index', msg='index out of bounds', fn=site[0], ln=site[1], pc=st.pc,
+                     stack=st.stack, cond=ok, definite=(dec is False))
+        if dec is False:
+            raise PathEnd('panic')
+        st.assume(ok)
+    return [(st, Ptr(sl.obj, sl.path + (('slice', sl), ('i', idx)), sl.mut))]
+
 # ------------------------------------------------------------- aligned_vec / v_frame
 @model('std::iter::repeat', doc='infinite iterator of clones of x')
 def m_repeat(it, st, callee, args, dest_tid, site):
@@ -717,10 +735,8 @@ class Models:
     opaque_field = staticmethod(opaque_field)
     iter_describe = staticmethod(iter_describe)
 
-@model('<T as std::convert::From<T>>::from', '<T as std::convert::Into<U>>::into', doc='reflexive From / Into on identical types: identity')
+@model('<T as std::convert::From<T>>::from', doc='reflexive From on identical types: identity')
 def m_from_id(it, st, callee, args, dest_tid, site):
-    if callee.get('def', '').startswith('<T as std::convert::Into<U>>'):
-        raise Unsupported('Into::into should resolve to a From impl')
     return [(st, args[0])]
 
 @model("std::array::<impl std::iter::IntoIterator for &'a mut [T; N]>::into_iter", "std::array::<impl std::iter::IntoIterator for &'a [T; N]>::into_iter",
@@ -849,7 +865,7 @@ def _iterate_closure(it, st, d, f, site, tag, collect_value=False):
                 # a captured variable changed: loop-carried state, which a single symbolic iteration cannot summarise
                 raise Unsupported(f"{tag}: the closure mutates captured state (obj{o})")
     ex = st.clone()
-    it.summarise_stores(rec, st, ex, collected)
+    it.summarise_stores(rec, st, ex, collected, {s.pc: s.nopanic for s, _v in outs})
     it.check_interference(rec, ex)
     if rec.paths == 0:
         ex.assume(X.binop('eq', n, X.const(n.ty, 0)))
